@@ -381,7 +381,7 @@ def oracle_noncubic_matcher(ck, rng):
         # (every second case: the same search with a list of rotations - identity first - and the image and template in other grey-value units;
         #  the unrotated particles must still be found at their places, as the identity candidate)
         rots_ = Rotation.from_euler("z", [[0.0], [90.0]], degrees=True) if it % 2 else None
-        gain_ = [1.0, 2e-3, 1.0, 5e2][it % 4]
+        gain_ = [1.0, 1e-4, 1.0, 5e2][it % 4]
         for ch in (N, chunks):
             c = dict(picker="ZNCC", template_shape=list(tshape), chunks=list(ch), scale=scale, points=[list(p_) for p_ in pts], rotations=bool(it % 2), gain=gain_)
             try:
